@@ -97,6 +97,13 @@ class C10:
                 pre.append(["add", "T%d pre" % st["tasks"], rng.choice([10, 100]), rng.random() < 0.9])
         for _ in range(nops):
             ops.append(self._gen_op(rng, kind, cfg, st))
+        if kind in ("live", "status") and rng.random() < 0.25:
+            # operations on a display that has not been started yet (refresh / update / print /
+            # status text before the block is entered)
+            for _ in range(rng.randint(1, 3)):
+                o2 = self._gen_op(rng, kind, cfg, st)
+                if o2[0] in ("print", "log", "rule", "update", "refresh", "status"):
+                    pre.append(o2)
         if rng.random() < 0.15 and ops:
             # a restart somewhere in the history (stop immediately followed by start)
             j = rng.randrange(len(ops) + 1)
